@@ -547,6 +547,7 @@ func ruleC04R45(r *Run) {
 		// loop-carried values: header phis
 		okState := true
 		var carried []string
+		counters := map[ssa.Value]bool{}
 		for _, in := range l.Header.Instrs {
 			ph, ok := in.(*ssa.Phi)
 			if !ok {
@@ -577,6 +578,7 @@ func ruleC04R45(r *Run) {
 				okState = false
 				continue
 			}
+			counters[ph] = true
 			// the counter may be used only in comparisons, its own increment and message formatting
 			if ph.Referrers() != nil {
 				for _, ref := range *ph.Referrers() {
@@ -601,6 +603,49 @@ func ruleC04R45(r *Run) {
 						carried = append(carried, "store "+p.expr(st.Addr))
 					}
 				}
+			}
+		}
+		// when the try counter runs out, the attempt must be abandoned as invalid data: returning anything after
+		// a number of discarded attempts makes the outcome depend on how many attempts were discarded
+		for b := range l.Body {
+			iff, ok := b.Instrs[len(b.Instrs)-1].(*ssa.If)
+			if !ok {
+				continue
+			}
+			for si, succ := range b.Succs {
+				if l.Body[succ] {
+					continue
+				}
+				bo, isB := p.resolve(iff.Cond).(*ssa.BinOp)
+				if !isB {
+					continue
+				}
+				if !counters[p.stripConv(bo.X)] && !counters[p.stripConv(bo.Y)] {
+					continue // not the counter exit
+				}
+				_ = si
+				okExit := true
+				seen := map[*ssa.BasicBlock]bool{}
+				var walk func(x *ssa.BasicBlock)
+				walk = func(x *ssa.BasicBlock) {
+					if seen[x] {
+						return
+					}
+					seen[x] = true
+					switch t := x.Instrs[len(x.Instrs)-1].(type) {
+					case *ssa.Return:
+						okExit = false
+					case *ssa.Panic:
+						if p.typeStr(panicType(t)) != "invalidData" {
+							okExit = false
+						}
+					}
+					for _, y := range x.Succs {
+						walk(y)
+					}
+				}
+				walk(succ)
+				r.Check(name+"#retry-exhausted", iff.Pos(), okExit, "when the try counter runs out the draw is abandoned as invalid data", "when the try counter of "+name+" runs out the function still returns a value: the result depends on the number of discarded attempts, which a pruned replay does not reproduce")
 			}
 		}
 		r.Check(name+"#retry-state", cs.Instr.Pos(), okState, "the retry loop carries no state across attempts except a try counter ("+strings.Join(carried, ",")+")",
